@@ -612,6 +612,9 @@ class Evaluator:
             except (Raised, Undecided):
                 raise
             except (TypeError, ValueError, KeyError, IndexError, ZeroDivisionError) as e:
+                if isinstance(e, TypeError) and _has_symbol(args):
+                    # e.g. sorted()/min()/max() over symbols: the order depends on the values
+                    raise Undecided(f"builtin {getattr(f, '__name__', f)} on symbolic values ({e})")
                 if isinstance(f, _TypeProxy) or f in _BUILTINS.values():
                     # a Python builtin applied to folded values raised: that is the analysed code's exception
                     raise Raised(type(e).__name__, str(e), node)
@@ -1418,6 +1421,16 @@ def is_inf(v):
     return isinstance(v, float) and math.isinf(v)
 
 
+def _has_symbol(v, depth=0):
+    if isinstance(v, Rat):
+        return v.const_value() is None
+    if depth < 4 and isinstance(v, (list, tuple, set)):
+        return any(_has_symbol(x, depth + 1) for x in v)
+    if depth < 4 and isinstance(v, dict):
+        return any(_has_symbol(x, depth + 1) for x in v.values())
+    return False
+
+
 class WatchedWrite(Exception):
     """A watched (caller-owned) container was modified by the folded code."""
 
@@ -1673,7 +1686,10 @@ def _obj_len(x):
 
 
 def _b_sorted(it, key=None, reverse=False):
-    return sorted(list(it), key=key, reverse=reverse)
+    items = list(it)
+    if key is None and _has_symbol(items) and len(items) > 1:
+        raise Undecided("sorted() over symbolic values: the order depends on the values")
+    return sorted(items, key=key, reverse=reverse)
 
 
 _BUILTINS = {
